@@ -200,7 +200,63 @@ func mutateA(t *rapid.T, prev aConfig) aConfig {
 	c := cloneA(prev)
 	edits := rapid.IntRange(1, 3).Draw(t, "edits")
 	for e := 0; e < edits; e++ {
-		switch rapid.IntRange(0, 11).Draw(t, "edit") {
+		edit := rapid.IntRange(0, 11).Draw(t, "edit")
+		if rapid.Bool().Draw(t, "singleField") {
+			// half of the edits change exactly one field of one object
+			edit = []int{12, 13, 15}[rapid.IntRange(0, 2).Draw(t, "singleKind")]
+		}
+		switch edit {
+		case 12: // change exactly one field of an upstream, everything else identical
+			i := rapid.IntRange(0, len(c.Upstreams)-1).Draw(t, "up")
+			switch rapid.IntRange(0, 2).Draw(t, "upField") {
+			case 0:
+				c.Upstreams[i].AE = rapid.SampledFrom([]string{"", "gzip", "br", "gzip, br"}).Draw(t, "upAE1")
+			case 1:
+				c.Upstreams[i].Policy = rapid.SampledFrom([]string{"", "first", "roundRobin", "random"}).Draw(t, "policy1")
+			default:
+				c.Upstreams[i].Servers = []int{rapid.IntRange(0, 2).Draw(t, "upServer1")}
+			}
+		case 13, 14: // change exactly one field of a location
+			i := rapid.IntRange(0, len(c.Locations)-1).Draw(t, "loc1")
+			l := &c.Locations[i]
+			switch rapid.IntRange(0, 6).Draw(t, "locField") {
+			case 0:
+				l.Hosts = subsetOf(t, "host1", []string{"h1.test", "h2.test"}, 0)
+			case 1:
+				l.Prefixes = subsetOf(t, "prefix1", []string{"/p1", "/p2"}, 0)
+			case 2:
+				l.Rewrite = !l.Rewrite
+			case 3:
+				l.ReqH = subsetOf(t, "reqH1", []string{"X-Add-1:a", "X-Add-2:b"}, 0)
+			case 4:
+				l.RespH = subsetOf(t, "respH1", []string{"X-Resp-1:r1", "X-Resp-2:r2"}, 0)
+			case 5:
+				l.Query = subsetOf(t, "query1", []string{"added:1"}, 0)
+			default:
+				l.Upstream = c.Upstreams[rapid.IntRange(0, len(c.Upstreams)-1).Draw(t, "locUp1")].Name
+			}
+		case 15, 16: // change exactly one field of a server
+			i := rapid.IntRange(0, len(c.Servers)-1).Draw(t, "srv1")
+			sv := &c.Servers[i]
+			switch rapid.IntRange(0, 4).Draw(t, "srvField") {
+			case 0:
+				sv.MinLength = rapid.SampledFrom([]string{"", "100", "1kb", "4kb"}).Draw(t, "minLength1")
+			case 1:
+				sv.Filter = rapid.SampledFrom([]string{"", "json|text", "image"}).Draw(t, "filter1")
+			case 2:
+				sv.Compress = ""
+				if len(c.Compresses) > 0 && rapid.Bool().Draw(t, "hasCompress1") {
+					sv.Compress = c.Compresses[rapid.IntRange(0, len(c.Compresses)-1).Draw(t, "srvCompress1")].Name
+				}
+			case 3:
+				sv.Cache = c.Caches[rapid.IntRange(0, len(c.Caches)-1).Draw(t, "srvCache1")]
+			default:
+				var names []string
+				for _, l := range c.Locations {
+					names = append(names, l.Name)
+				}
+				sv.Locations = subsetOf(t, "srvLoc1", names, 1)
+			}
 		case 0, 1, 2: // modify a server in place: optional fields set <-> unset
 			i := rapid.IntRange(0, len(c.Servers)-1).Draw(t, "srv")
 			c.Servers[i] = genAServer(t, c.Servers[i].Slot, &c)
